@@ -649,6 +649,8 @@ def unc_expected(nom, unc, exp):
 
 def dec_text(d):
     """a Decimal as a plain literal (no exponent)"""
+    if d.is_nan():
+        return "nan"
     t = format(d, "f")
     return t
 
@@ -682,7 +684,9 @@ def uncertainty_level(ck, rng, thorough):
         ("", " - 1", lambda x: x - 1, False),
         ("", "**2", lambda x: x ** 2, True), ("", "^2 m", lambda x: x ** 2 * m, True), ("", "²", lambda x: x ** 2, True),
     ]
-    noms = ["1.2", "12.3", "1.23", "8.0", "0.5", "4.400", "12.34", "7", "120", "0.05", "5.", ".5"]
+    # zero and nan nominal values included: an exponent suffix still scales the standard deviation
+    noms = ["1.2", "12.3", "1.23", "8.0", "0.5", "4.400", "12.34", "7", "120", "0.05", "5.", ".5",
+            "0", "0.0", "0.00", "00.000", "-0.0", "nan"]
     uncs = ["4", "04", "12", "34", "345", "5678", "100", "4.5", "0.3", "007"]
     exps = ["", "3", "-2", "+05"]
     grid = [(n, u, e) for n in noms for u in uncs for e in exps]
@@ -696,15 +700,22 @@ def uncertainty_level(ck, rng, thorough):
         if rng.random() < 0.15:
             unc = unc + "." + rng.choice("0123456789")
         grid.append((nom, unc, rng.choice(["", "", "2", "-3", "+1", "-04"])))
+    for _ in range(300 if thorough else 60):
+        z = rng.choice(["0", "0.", "0.0", "0.00", "0.000", "00.0", ".0", "-0.0", "nan"])
+        unc = "".join(rng.choice("0123456789") for _ in range(rng.randint(1, 4))).lstrip("0") or "5"
+        grid.append((z, unc, rng.choice(["3", "-2", "+05", "1", "-1", "12"])))
     n_eval = 0
     seen_tok = set()
     for nom, unc, exp in grid:
         n, sd = unc_expected(nom, unc, exp)
-        if float(n) == 0.0 and exp:
-            continue          # pint leaves a zero mantissa alone (documented in _apply_e_notation)
         n0, sd0 = unc_expected(nom, unc, "")
         suffix = ("e" + exp) if exp else ""
-        spellings = [("concise", f"{nom}({unc}){suffix}"),
+        special = nom == "nan" or nom.startswith("-")
+        if special and "." not in unc:
+            sd0 = Decimal(unc) if nom == "nan" else sd0      # nan has no decimals to count in
+            sd = sd0.scaleb(int(exp)) if exp else sd0
+        spellings = [] if special else [("concise", f"{nom}({unc}){suffix}")]
+        spellings += [
                      ("paren", f"({dec_text(n0)} +/- {dec_text(sd0)}){suffix}"),
                      ("paren-pm", f"({dec_text(n0)} ± {dec_text(sd0)}){suffix}"),
                      ("paren-tight", f"({dec_text(n0)}+/-{dec_text(sd0)}){suffix}")]
